@@ -39,6 +39,7 @@ RULE += (" Map-chain cases: two field mapping items in a row (the second maps on
 RULE += (" Split cases: an item renamed by one item and then replaced by several new items (one-to-many mapping, hashes_fields, extract_fields): the replacing items answer detection-item conditions on earlier applications like the item they replace.")
 RULE += (" Post-processing cases: query post-processing items (embed, simple_template, template, json, replace, nest) with rule conditions on the application of the pre-processing item, of earlier post-processing items and of items inside an earlier nest item; the converted query text is compared with the items applied in order under those conditions.")
 RULE += (" Items with the windash modifier: value conditions see every dash variant as a string value of the item.")
+RULE += (" Keyword items that a mapping item binds to a field count as produced by that item for field-name conditions (fixed cases).")
 ASSUMPTIONS = [
     "an empty condition group holds whatever its linking / negation flag (an item without conditions always applies)",
     "detection items are generated without value modifiers other than fieldref, so value conditions see the source values",
@@ -760,7 +761,44 @@ def check_post_case(case: dict) -> Outcome:
     return out
 
 
+def kwmap_cases():
+    for neg in (False, True):
+        for nest in (False, True):
+            yield {"kind": "kwmap", "not": neg, "nest": nest}
+
+
+def check_kwmap_case(case: dict) -> Outcome:
+    """A keyword (unbound) item that a mapping item binds to a field ('null: msg'): the new field name was produced by the
+    mapping item like any other mapped name, for the field-name condition of the following item."""
+    from sigma.collection import SigmaCollection
+    from sigma.exceptions import SigmaError
+    from sigma.processing.pipeline import ProcessingPipeline
+
+    out = Outcome()
+    out.nontrivial = True
+    out.label("keyword-mapped-to-field")
+    items = [{"id": "map", "type": "field_name_mapping", "mapping": {None: "msg", "f": "mf"}},
+             {"id": "test", "type": "field_name_suffix", "suffix": "_M", "field_name_cond_not": case["not"],
+              "field_name_conditions": [{"type": "processing_item_applied", "processing_item_id": "map"}]}]
+    if case["nest"]:
+        items = [{"id": "n", "type": "nest", "items": items}]
+    doc = {"title": "t", "logsource": {"category": "c"}, "detection": {"kw": ["foo"], "sel": {"f": "v", "g": 1}, "condition": "kw and sel"}}
+    m = (lambda t, hit: t + "_M" if hit != case["not"] else t)
+    expected = sorted([(m("msg", True), ()), (m("mf", True), ()), (m("g", False), ())], key=repr)
+    try:
+        rule = SigmaCollection.from_dicts([doc]).rules[0]
+        ProcessingPipeline.from_dict({"transformations": items}).apply(rule)
+        obs = _names_in(rule)[0]
+        if obs != expected:
+            out.fail("C13:keyword-mapped-to-field", "marker if %smap applied to the field name, nest=%s: items %s, expected %s" % ("not " if case["not"] else "", case["nest"], obs, expected))
+    except SigmaError as e:
+        out.fail("C13:keyword-mapped-to-field:error:" + type(e).__name__, str(e))
+    return out
+
+
 def check_case(case: dict) -> Outcome:
+    if case.get("kind") == "kwmap":
+        return check_kwmap_case(case)
     if case.get("kind") == "post":
         return check_post_case(case)
     if case.get("kind") == "split":
@@ -1115,7 +1153,7 @@ def sweep_cases():
 
 def run(ctx) -> None:
     i = 0
-    for c in list(sweep_cases()) + list(split_cases()):
+    for c in list(sweep_cases()) + list(split_cases()) + list(kwmap_cases()):
         i += 1
         if i % ctx.nshards == ctx.shard:
             ctx.do(c)
